@@ -34,6 +34,12 @@ Theorem export_rewriting_spec : forall W' e,
 Proof. exact C14.Refine.rewrite_export_spec. Qed.
 Print Assumptions export_rewriting_spec.
 
+From ChibiV Require Import C14.OriginProofs.
+Theorem origin_is_a_definition : forall g is n l m,
+  program_origin g is n = Origin l m -> is_definition g l m.
+Proof. exact origin_is_a_definition_proof. Qed.
+Print Assumptions origin_is_a_definition.
+
 (** environments (eval.c sexp_env_import_op, sexp_env_cell) *)
 From ChibiV Require Import C14.Env C14.EnvProofs.
 
